@@ -48,6 +48,7 @@ struct WrapState {
   pthread_t owner;               // only calls of this thread are faulted / counted (the peer thread uses raw calls anyway)
   std::atomic<long> in_syscall_signals{0};
   std::atomic<int> inside_blocking{0};
+  const char *force_eagain = nullptr; Fault forced;   // C10: the next invocation of this call reports EAGAIN once (a full buffer, as a non-blocking socket sees it)
   bool gate_eagain = false, eagain_ok = false; // C10: a would-block fault is only delivered to calls on a blocking socket (on a non-blocking one reporting it is correct)
 };
 static WrapState W;
@@ -61,6 +62,7 @@ static void ledger_close(int fd) { if (!LG.on) return; std::lock_guard<std::mute
 static const Fault *consume(const char *call) {
   W.calls_total++;
   if (!W.armed || !pthread_equal(pthread_self(), W.owner)) return nullptr;
+  if (W.force_eagain && !strcmp(W.force_eagain, call)) { W.force_eagain = nullptr; W.forced.kind = 2; W.faults_consumed++; W.consumed_by[string(call) + ":EAGAIN(non-blocking)"]++; ++W.count[call]; return &W.forced; }
   int n = ++W.count[call];
   for (auto &f : W.plan) if (f.call == call && n >= f.k && n < f.k + f.burst && !(f.kind == 2 && W.gate_eagain && !W.eagain_ok)) { W.faults_consumed++; W.consumed_by[string(call) + (f.kind == 1 ? ":EINTR" : f.kind == 2 ? ":EAGAIN" : ":SHORT")]++; return &f; }
   return nullptr;
@@ -139,7 +141,7 @@ int vn_shm_open(const char *n, int fl, mode_t m) { const Fault *f = consume("shm
 namespace {
 
 void arm(const vector<Fault> &plan) { W.plan = plan; W.count.clear(); W.armed = true; W.owner = pthread_self(); W.faults_consumed = 0; }
-void disarm() { W.armed = false; W.plan.clear(); W.gate_eagain = false; W.eagain_ok = false; }
+void disarm() { W.armed = false; W.plan.clear(); W.force_eagain = nullptr; W.gate_eagain = false; W.eagain_ok = false; }
 
 inline unsigned char pat(unsigned stream, size_t i) { return (unsigned char)(((i * 2654435761u) >> 13) ^ (i >> 3) ^ (stream * 97u)); }
 double now_ms() { struct timespec ts; clock_gettime(CLOCK_MONOTONIC, &ts); return ts.tv_sec * 1000.0 + ts.tv_nsec / 1e6; }
@@ -628,6 +630,20 @@ Outcome run_c10(const Case &c) {
     } else if (cmd == "send") {
       long cb = W.calls_total;
       if (m.closed) { pssize r = p_socket_send(m.s, "x", 1, &err); expect_not_available(i, "send", r < 0, err, cb); }
+      else if (m.connected && m.tcp && m.raw_peers.size() && !m.shut_wr && !m.blocking && (arg & 1)) {
+        // the kernel has no room (EAGAIN from send): "a non-blocking socket returns at once with a would-block error instead of waiting" -
+        // one system call, would-block, nothing sent
+        long cb = W.calls_total; W.force_eagain = "send";
+        pssize r; { MustNotBlock g("non-blocking p_socket_send"); r = p_socket_send(m.s, "hello", 5, &err); }
+        bool consumed = W.force_eagain == nullptr; W.force_eagain = nullptr;
+        if (consumed) {
+          vl::stats().klass("nonblocking_send_into_full_buffer");
+          if (r >= 0) fail("nonblocking-waits", "non-blocking p_socket_send returned " + std::to_string(r) + " although the kernel had reported that the send buffer is full (EAGAIN): the call retried instead of returning a would-block error at once (" + std::to_string(W.calls_total - cb) + " system calls)");
+          else if (!err || p_error_get_code(err) != P_ERROR_IO_WOULD_BLOCK) fail("nonblocking-code", "non-blocking send into a full buffer failed with " + errstr(err) + " instead of would-block");
+          else if (W.calls_total - cb != 1) fail("nonblocking-waits", "non-blocking send into a full buffer made " + std::to_string(W.calls_total - cb) + " system calls before it reported would-block (expected one)");
+          if (r > 0) { char b[16]; struct pollfd rp = {m.raw_peers.back(), POLLIN, 0}; poll(&rp, 1, 200); (void)!recv(m.raw_peers.back(), b, sizeof b, MSG_DONTWAIT); }
+        }
+      }
       else if (m.connected && m.tcp && m.raw_peers.size() && !m.shut_wr) { W.eagain_ok = m.blocking; pssize r = p_socket_send(m.s, "hello", 5, &err); W.eagain_ok = false; if (r != 5) fail("send", "send of 5 bytes on a connected socket returned " + std::to_string(r) + " " + errstr(err)); else { char b[16]; struct pollfd rp = {m.raw_peers.back(), POLLIN, 0}; poll(&rp, 1, 2000); ssize_t n = recv(m.raw_peers.back(), b, sizeof b, MSG_DONTWAIT); if (n != 5 || memcmp(b, "hello", 5)) fail("send", "peer did not receive the 5 bytes sent"); } }
     } else if (cmd == "shutdown") {
       long cb = W.calls_total; bool rd = arg & 1, wr = arg & 2;
